@@ -39,7 +39,11 @@ def gen_op(i, menu, invalid=None):
 
 def judge(eng, col, st, ops, kind, extra=None):
     """turn recorded problems into a candidate (solver decides the symbolic ones)"""
-    hard = [t for t, c in st.problems if c is True]
+    ALIAS = "same object twice (not a private copy)"
+    if any(ALIAS in t for t, c in st.problems if c is True):
+        # one representative witness for the aliasing defect (all paths see it); it does not end the history
+        col.candidate({"prop": col_prop(kind), "kind": "config_history", "ops": [{"op": "set_preset", "name": "default"}]})
+    hard = [t for t, c in st.problems if c is True and ALIAS not in t]
     soft = [(t, c) for t, c in st.problems if isinstance(c, SymBool)]
     m = None
     if hard:
@@ -84,7 +88,7 @@ def run(rep, tier, seed, budget):
                     after = dech.run_decoder(ctx, PROBE)
                     if (before[0], str(before[1])) != (after[0], str(after[1])):
                         st.problem("decoder(%r) changed across %s, which must leave the table unchanged" % (PROBE, op["op"]))
-                if any(c is True for _, c in st.problems):
+                if any(c is True and "not a private copy" not in t for t, c in st.problems):
                     break
             col.nontrivial(tuple(o["op"] + str(o.get("name", o.get("which", ""))) for o in ops))
             col.sample([o["op"] for o in ops])
